@@ -144,9 +144,11 @@ func strArg(s string) string {
 }
 
 var c20Names = []string{"sourceIPv4Address", "destinationTransportPort", "octetDeltaCount", "flowStartSeconds",
-	"sourcePodName", "x", "a%db", "q\"uote", "<tag>&", "naïve", "名前", "tab\there", "=", "multi\nline", "back\\slash", "%v%s"}
+	"sourcePodName", "x", "a%db", "q\"uote", "<tag>&", "naïve", "名前", "tab\there", "=", "multi\nline", "back\\slash", "%v%s", "bad\xffname"}
 
-var c20Strings = []string{"", "pod-1", "a b  c", "x\ny", "\"q\"", "<&>", "日本語", "é", "%d %s", "\\u00e9", "\t", " ", "\x00nul", "\x7f"}
+var c20Strings = []string{"", "pod-1", "a b  c", "x\ny", "\"q\"", "<&>", "日本語", "é", "%d %s", "\\u00e9", "\t", " ", "\x00nul", "\x7f",
+	// not valid UTF-8: stored and returned as is in text format, coerced to U+FFFD per byte by the json format
+	"\xff", "a\xc3", "\xed\xa0\x80", "\xf4\x90\x80\x80z", "ok\xe2\x82", "\xc0\xaf", "\xf0\x9f\x98"}
 
 // c20Field returns "<name> <dtcode> <kind> <value> <formatted>" for a random well-typed data field.
 func c20Field(r *Rng, class *string) string {
